@@ -5,6 +5,8 @@
 #![allow(clippy::all)]
 
 pub mod oracle;
+pub mod specs;
+pub mod derived;
 
 #[cfg(kani)]
 mod proofs;
